@@ -114,6 +114,20 @@ type scriptSrc struct {
 	ncalls      int
 	failAt      int
 	eofWithData bool
+	wrapEOF     bool // the injected error wraps io.ErrUnexpectedEOF (it is still not an end of stream)
+}
+
+// wrappedEOF is the injected failure in a form that `errors.Is(err, io.ErrUnexpectedEOF)` accepts: a
+// source error must be passed through whatever it wraps.
+type wrappedEOF struct{}
+
+func (wrappedEOF) Error() string        { return "injected failure (wraps unexpected EOF)" }
+func (wrappedEOF) Unwrap() error        { return io.ErrUnexpectedEOF }
+func (wrappedEOF) Is(target error) bool { return target == errInjected }
+
+// srcFail parses a source failure point: "<k>" or "<k>~" (the wrapped flavour)
+func srcFail(tok string) (int, bool) {
+	return atoi(strings.TrimSuffix(tok, "~")), strings.HasSuffix(tok, "~")
 }
 
 func (s *scriptSrc) pos() int   { s.mu.Lock(); defer s.mu.Unlock(); return s.rpos }
@@ -125,6 +139,9 @@ func (s *scriptSrc) Read(p []byte) (int, error) {
 	k := s.ncalls
 	s.ncalls++
 	if s.failAt >= 0 && k >= s.failAt {
+		if s.wrapEOF {
+			return 0, wrappedEOF{}
+		}
 		return 0, errInjected
 	}
 	if len(p) == 0 {
@@ -258,6 +275,7 @@ type frameTrack struct {
 	data   []byte
 	clean  bool // every op succeeded so far
 	closed bool
+	atClose string // sink summary when the first Close returned
 	flushed bool // a Flush cut a block short (legacy: blocks then hold less than 8 MiB)
 	opts   map[string]int
 }
@@ -276,6 +294,9 @@ func implW(f []string, o *oracleSink) string {
 	hung := false
 	finishFrame := func() {
 		sinks = append(sinks, sink.summary())
+		if tr.closed && tr.atClose != "" && tr.atClose != sink.summary() {
+			notes = append(notes, "SINK-CHANGED-AFTER-CLOSE-RETURNED")
+		}
 		if tr.clean && tr.closed {
 			all := sink.bytes()
 			ref := saveBlob("wsink", all)
@@ -386,6 +407,9 @@ func implW(f []string, o *oracleSink) string {
 				before := sink.calls()
 				wasClosed := tr.closed
 				err := zw.Close()
+				if !tr.closed && err == nil {
+					tr.atClose = sink.summary() // what the sink holds at the moment a successful Close returns
+				}
 				if err != nil {
 					tr.clean = false
 				}
@@ -409,7 +433,8 @@ func implW(f []string, o *oracleSink) string {
 				return "-"
 			case "rf":
 				d := loadBlob(p[1])
-				src := &scriptSrc{data: d, chunk: atoi(p[2]), failAt: atoi(p[3]), eofWithData: p[4] == "1"}
+				fa, wr := srcFail(p[3])
+				src := &scriptSrc{data: d, chunk: atoi(p[2]), failAt: fa, wrapEOF: wr, eofWithData: p[4] == "1"}
 				n, err := zw.ReadFrom(src)
 				if err != nil || int(n) != len(d) {
 					tr.clean = false
@@ -472,6 +497,11 @@ func implW(f []string, o *oracleSink) string {
 		}
 		traceRequests(o, true)
 	}
+	if shadowDepth == 0 && !hung {
+		if d := poolDiscipline(); d != "" {
+			notes = append(notes, d)
+		}
+	}
 	return fmt.Sprintf("%s ; %s ; %s", strings.Join(res, " "), strings.Join(sinks, " "), strings.Join(append(notes, "notes"), " "))
 }
 
@@ -486,7 +516,8 @@ func implR(f []string, o *oracleSink) string {
 	blobRef := f[2]
 	data := loadBlob(blobRef)
 	mk := func(d []byte) *scriptSrc {
-		return &scriptSrc{data: d, chunk: atoi(f[3]), failAt: atoi(f[4]), eofWithData: f[5] == "1"}
+		fa, wr := srcFail(f[4])
+		return &scriptSrc{data: d, chunk: atoi(f[3]), failAt: fa, wrapEOF: wr, eofWithData: f[5] == "1"}
 	}
 	src := mk(data)
 	zr := lz4.NewReader(src)
@@ -660,6 +691,11 @@ func implR(f []string, o *oracleSink) string {
 		}
 		if !reused {
 			traceRequests(o, true)
+		}
+	}
+	if !hung {
+		if d := poolDiscipline(); d != "" {
+			notes = append(notes, d)
 		}
 	}
 	return fmt.Sprintf("%s ; consumed=%s ; %s", strings.Join(res, " "), cons, strings.Join(append(notes, "notes"), " "))
